@@ -608,8 +608,10 @@ func (c *evalCtx) index(x *ast.IndexExpr) *sv {
 			c.fail("map with composite key/element in spec")
 		}
 		m := c.rv1(base)
-		dom := fmt.Sprintf("(and (not (= %s 0)) (select (select %s %s) %s))", m, c.t.H(c.cur, "MD_"+ks), m, idx)
-		return &sv{ty: u.Elem(), sort: vs, terms: []string{fmt.Sprintf("(ite %s (select (select %s %s) %s) %s)", dom, c.t.H(c.cur, "MV_"+ks+"_"+vs), m, idx, zeroOf(vs))}}
+		// a lookup is written as an application of mapget_<k>_<v> (defined by an axiom as the usual if-present-then-value-
+		// else-zero): unlike `ite`, an application may occur in quantifier patterns (e.g. forall i: len(r.m[t][i]) > 0)
+		fn := c.t.mapGetFn(ks, vs)
+		return &sv{ty: u.Elem(), sort: vs, terms: []string{fmt.Sprintf("(%s %s %s %s %s)", fn, c.t.H(c.cur, "MD_"+ks), c.t.H(c.cur, "MV_"+ks+"_"+vs), m, idx)}}
 	}
 	c.fail("cannot index %s", base.ty)
 	return nil
@@ -1544,7 +1546,7 @@ func findPattern(body, qv string) string {
 		if k := strings.IndexAny(head, " )"); k >= 0 {
 			head = head[:k]
 		}
-		okHead := head == "select" || strings.HasPrefix(head, "sf_") || head == "sat" || head == "seq_at"
+		okHead := head == "select" || strings.HasPrefix(head, "sf_") || head == "sat" || head == "seq_at" || strings.HasPrefix(head, "mapget_")
 		if !okHead {
 			continue
 		}
@@ -1558,7 +1560,7 @@ func findPattern(body, qv string) string {
 					direct = true
 				}
 			}
-			if direct && !strings.Contains(term, "ite") && !seen[term] {
+			if direct && !strings.Contains(term, "ite") && !seen[term] && !reCSName.MatchString(term) {
 				seen[term] = true
 				all = append(all, term)
 			}
